@@ -15,6 +15,7 @@
 #include "link_or_value.h"
 #include "permutation.h"
 #include "thread_info.h"
+#include "verif_hooks.h"
 
 #include "glog/logging.h"
 
@@ -50,6 +51,7 @@ public:
                  * clear for preventing heap use after free by reference of
                  * need_delete
                  */
+                YK_VP(YK_PLAINW, YK_C_TREE, &lv_.at(pos));
                 lv_.at(pos).init_lv();
             }
         }
@@ -150,6 +152,7 @@ public:
                         prev->lock();
                         if (prev->get_version_deleted() || prev != get_prev()) {
                             prev->version_unlock();
+                            YK_WAIT(YK_W_RETRY, nullptr);
                             goto retry_prev_lock; // NOLINT
                         } else {
                             prev->set_next(get_next());
